@@ -473,6 +473,24 @@ func (in *Interp) unmarshalModel(bz Value, ptr Value) Value {
 }
 
 func init() {
+	// proto.Clone: a deep copy of the message (protobuf's reflection walk is out of reach)
+	registerIntrinsic("proto.Clone", func(in *Interp, fn *ssa.Function, a []Value) Value {
+		iv, ok := a[0].(*IfaceV)
+		if !ok || iv.T == nil {
+			return a[0]
+		}
+		p, ok := iv.V.(*Pointer)
+		if !ok || p == nil {
+			return a[0]
+		}
+		pt, _ := iv.T.Underlying().(*types.Pointer)
+		if pt == nil {
+			in.unsupported("proto.Clone of non-pointer message")
+		}
+		cp := in.deepSnapshot(in.navigate(p), 0, map[*Object]*Object{})
+		o := in.newObject(pt.Elem(), cp, "proto.Clone")
+		return &IfaceV{T: iv.T, V: &Pointer{obj: o}}
+	})
 	registerIntrinsic("box.Marshal", func(in *Interp, fn *ssa.Function, a []Value) Value { return in.marshalModel(a[0]) })
 	registerIntrinsic("box.Unmarshal", func(in *Interp, fn *ssa.Function, a []Value) Value { return in.unmarshalModel(a[0], a[1]) })
 	registerIntrinsic("hash32.err", func(in *Interp, fn *ssa.Function, a []Value) Value {
